@@ -681,6 +681,17 @@ C05_EpochsBacked(sc, ep, nw) ==
 StateOK(sc, nw, rd, ep) ==
   C05_NoDup(sc) /\ C05_NewestOK(sc, nw) /\ C05_ReadAt(sc, rd) /\ C05_Epochs(sc, ep) /\ C05_EpochsBacked(sc, ep, nw)
 
+\* A FOLLOW-UP operation is only asked for C05_EpochsBacked when the log it started from had no offset gap.  A gap is
+\* what an interrupted truncation leaves behind (the statement exempts what it was removing: log 0,1,_,_,4 after a
+\* Truncate(0) killed between two segment deletions) or what compaction removed; a later Truncate(4) on such a log keeps
+\* the entry of the epoch that began inside the gap (ClearLatest compares start offsets with the truncation point),
+\* which then starts beyond the new log end.  That is a consequence of the gap, not of this operation (found by TLC on
+\* the thorough configuration, 7 steps).  The state reached by the crash recovery itself is always asked.
+Gappy(sc) == \E i \in 1..Len(sc) - 1 : sc[i + 1].off > sc[i].off + 1
+StateOKAfter(scPre, sc, nw, rd, ep) ==
+  C05_NoDup(sc) /\ C05_NewestOK(sc, nw) /\ C05_ReadAt(sc, rd) /\ C05_Epochs(sc, ep)
+  /\ (Gappy(scPre) \/ C05_EpochsBacked(sc, ep, nw))
+
 \* what the interrupted operation was removing / adding (pre = scan before,
 \* lastBase = base offset of the last segment, nw = NewestOffset() before)
 \* a clean may only remove a record that some configured policy can claim:
